@@ -151,3 +151,503 @@ Proof.
   intros N H. exists (windex s). intros f d Hf Hd Hk.
   destruct (wok_rank _ s [] H N f d Hf Hd Hk) as [[] | R]. exact R.
 Qed.
+
+(* ---- ingredients of one merge ---- *)
+Lemma nth_set_split (s : list (list fetch)) : forall k,
+  k < length s ->
+  exists a w b, s = a ++ w :: b /\ length a = k /\ nth k s [] = w /\
+                forall w', set_nth k w' s = a ++ w' :: b.
+Proof.
+  induction s as [|x s IH]; intros k H; simpl in H; [lia|].
+  destruct k as [|k].
+  - exists [], x, s. simpl. auto.
+  - destruct (IH k) as [a [w [b [E1 [E2 [E3 E4]]]]]]; [lia|].
+    exists (x :: a), w, b. simpl. rewrite E1 at 1. split; [reflexivity|]. split; [lia|].
+    split; [exact E3|]. intros w'. rewrite E4. reflexivity.
+Qed.
+
+Lemma go_sort_perm {A} (cmp : A -> A -> comparison) (l : list A) : Permutation l (go_sort cmp l).
+Proof.
+  unfold go_sort.
+  assert (G : forall racc, Permutation (l ++ racc) (fold_left (fun racc x => ins_rev cmp x racc) l racc)).
+  { induction l as [|x l IH]; simpl; intros racc; [apply Permutation_refl|].
+    eapply Permutation_trans; [|apply IH].
+    eapply Permutation_trans; [apply Permutation_middle|]. apply Permutation_app_head. apply ins_rev_perm. }
+  specialize (G []). rewrite app_nil_r in G.
+  eapply Permutation_trans; [exact G | apply Permutation_rev].
+Qed.
+
+Lemma union_deps_in members mids x :
+  In x (union_deps members mids) <-> exists m, In m members /\ In x (fdeps m) /\ ~ In x mids.
+Proof.
+  unfold union_deps.
+  assert (Inner : forall ds acc, In x (fold_left (fun deps d => if memb d mids then deps
+                                  else if memb d deps then deps else deps ++ [d]) ds acc)
+                               <-> In x acc \/ (In x ds /\ ~ In x mids)).
+  { induction ds as [|d ds IH]; intros acc; simpl; [tauto|].
+    rewrite IH. destruct (memb d mids) eqn:M1.
+    - apply memb_In in M1. split; [tauto|]. intros [H | [[H | H] Hn]]; try tauto. subst. contradiction.
+    - apply memb_false in M1. destruct (memb d acc) eqn:M2.
+      + apply memb_In in M2. split; [tauto|]. intros [H | [[H | H] Hn]]; try tauto. subst. tauto.
+      + rewrite in_app_iff. simpl. split.
+        * intros [[H | [H | []]] | H]; try tauto. subst. tauto.
+        * intros [H | [[H | H] Hn]]; tauto. }
+  assert (Outer : forall ms acc, In x (fold_left (fun deps m => fold_left (fun deps d => if memb d mids then deps
+                                  else if memb d deps then deps else deps ++ [d]) (fdeps m) deps) ms acc)
+                               <-> In x acc \/ exists m, In m ms /\ In x (fdeps m) /\ ~ In x mids).
+  { induction ms as [|m ms IH]; intros acc; simpl.
+    - split; [tauto|]. intros [H | [m [[] _]]]. exact H.
+    - rewrite IH, Inner. split.
+      + intros [[H | [H Hn]] | [m' [Hm' H]]]; [left; exact H | |].
+        * right. exists m. tauto.
+        * right. exists m'. split; [right; exact Hm' | exact H].
+      + intros [H | [m' [[E | Hm'] [H Hn]]]]; [left; left; exact H | |].
+        * subst. left. right. tauto.
+        * right. exists m'. tauto. }
+  rewrite Outer. simpl. split; [intros [[] | H]; exact H | intros H; right; exact H].
+Qed.
+
+Lemma merge_in_wave_perm gids mu w :
+  (exists x, In x w /\ sel gids x = true) ->
+  Permutation (merge_in_wave gids mu w) (mu :: filter (fun y => negb (sel gids y)) w).
+Proof.
+  induction w as [|x r IH]; intros [y [Hy Sy]]; simpl; [contradiction|].
+  destruct (sel gids x) eqn:Sx; simpl.
+  - apply Permutation_refl.
+  - destruct Hy as [E | Hy]; [subst; congruence|].
+    eapply Permutation_trans; [apply perm_skip; apply IH; exists y; auto|]. apply perm_swap.
+Qed.
+
+Lemma redirect_fid mids mu f : fid (redirect mids mu f) = fid f.
+Proof. reflexivity. Qed.
+Lemma redirect_planned mids mu f : planned_ids (redirect mids mu f) = planned_ids f.
+Proof. reflexivity. Qed.
+Lemma ids_map_redirect mids mu l : ids (map (redirect mids mu) l) = ids l.
+Proof. unfold ids. rewrite map_map. reflexivity. Qed.
+Lemma planned_map_redirect mids mu l :
+  flat_map planned_ids (map (redirect mids mu) l) = flat_map planned_ids l.
+Proof. induction l as [|x l IH]; simpl; [reflexivity | rewrite IH; reflexivity]. Qed.
+
+(* ---- the invariant ---- *)
+Definition inv (l : list fetch) (s : list (list fetch)) : Prop :=
+  NoDup (ids (concat s)) /\
+  cover l (concat s) /\
+  wok (ids (concat s)) [] s /\
+  (forall N, In N (concat s) -> In (fid N) (planned_ids N) /\ (is_cand N = true -> fmerged N = [])).
+
+(* ---- one merge preserves the invariant ---- *)
+Section Step.
+  Variable l : list fetch.
+  Variables (a : list (list fetch)) (w : list fetch) (b : list (list fetch)) (gids : list nat).
+  Variables (members : list fetch) (base : fetch).
+  Let Mem := filter (sel gids) w.
+  Let Non := filter (fun y => negb (sel gids y)) w.
+  Hypothesis Hperm : Permutation Mem members.
+  Hypothesis Hbase : In base members.
+  Let mids := ids members.
+  Let mu := fid base.
+  Let Mu := {| fid := mu; fdeps := union_deps members mids; fsrc := None; fmerged := mids |}.
+  Let rf := redirect mids mu.
+  Let Rest := concat a ++ Non ++ concat b.
+  Hypothesis Hinv : inv l (a ++ w :: b).
+
+  Let S' := map (map rf) (a ++ merge_in_wave gids Mu w :: b).
+
+  Lemma step_P1 : Permutation (concat (a ++ w :: b)) (Mem ++ Rest).
+  Proof.
+    rewrite concat_app. simpl. unfold Rest.
+    eapply Permutation_trans; [|apply Permutation_app_swap_app].
+    apply Permutation_app_head. rewrite app_assoc. apply Permutation_app_tail.
+    apply Permutation_sym. apply filter_partition_perm.
+  Qed.
+
+  Lemma mem_exists : exists x, In x w /\ sel gids x = true.
+  Proof.
+    assert (H : In base Mem) by (eapply Permutation_in; [apply Permutation_sym; exact Hperm | exact Hbase]).
+    unfold Mem in H. apply filter_In in H. exists base. exact H.
+  Qed.
+
+  Lemma step_P2 : Permutation (concat S') (map rf (Mu :: Rest)).
+  Proof.
+    unfold S'. rewrite <- concat_map. apply Permutation_map.
+    rewrite concat_app. simpl. unfold Rest.
+    eapply Permutation_trans; [|apply Permutation_sym; apply Permutation_middle].
+    apply Permutation_app_head.
+    change (Mu :: Non ++ concat b) with ((Mu :: Non) ++ concat b). apply Permutation_app_tail.
+    apply merge_in_wave_perm. exact mem_exists.
+  Qed.
+
+  Let N0 : NoDup (ids (concat (a ++ w :: b))) := proj1 Hinv.
+  Let C0 : cover l (concat (a ++ w :: b)) := proj1 (proj2 Hinv).
+  Let W0 : wok (ids (concat (a ++ w :: b))) [] (a ++ w :: b) := proj1 (proj2 (proj2 Hinv)).
+  Let E0 := proj2 (proj2 (proj2 Hinv)).
+
+  Lemma in_flat a0 : In a0 (concat (a ++ w :: b)) <-> In a0 Mem \/ In a0 Rest.
+  Proof.
+    split; intros H.
+    - apply in_app_or. eapply Permutation_in; [apply step_P1 | exact H].
+    - eapply Permutation_in; [apply Permutation_sym; apply step_P1 | apply in_or_app; exact H].
+  Qed.
+
+  Lemma nodup_split : NoDup (ids Mem ++ ids Rest).
+  Proof.
+    rewrite <- ids_app. eapply Permutation_NoDup; [|exact N0].
+    unfold ids. apply Permutation_map. apply step_P1.
+  Qed.
+
+  Lemma mids_mem x : In x mids <-> In x (ids Mem).
+  Proof.
+    unfold mids, ids. split; apply Permutation_in; [apply Permutation_sym|]; apply Permutation_map; exact Hperm.
+  Qed.
+  Lemma mu_in_mids : In mu mids.
+  Proof. unfold mu, mids. apply in_ids. exact Hbase. Qed.
+
+  Lemma planned_Mu : planned_ids (rf Mu) = mids.
+  Proof.
+    unfold planned_ids. change (fmerged (rf Mu)) with mids.
+    pose proof mu_in_mids as H. destruct mids; [destruct H | reflexivity].
+  Qed.
+
+  Lemma rest_not_mid D : In D Rest -> ~ In (fid D) mids.
+  Proof.
+    intros HD Hm. apply mids_mem in Hm.
+    destruct (nodup_app _ _ nodup_split) as [_ [_ Dj]]. apply (Dj _ Hm). apply in_ids. exact HD.
+  Qed.
+  Lemma mem_mid D : In D Mem -> In (fid D) mids.
+  Proof. intros HD. apply mids_mem. apply in_ids. exact HD. Qed.
+
+  Lemma mem_facts x : In x Mem -> In x w /\ planned_ids x = [fid x].
+  Proof.
+    intros H. unfold Mem in H. apply filter_In in H. destruct H as [Hw Hs]. split; [exact Hw|].
+    pose proof Hs as Hs'. unfold sel in Hs'. apply andb_true_iff in Hs'. destruct Hs' as [_ Hc].
+    apply planned_ids_plain. apply (E0 x); [|exact Hc].
+    apply in_flat. left. unfold Mem. apply filter_In. split; assumption.
+  Qed.
+
+  (* dependencies of a fetch of wave w that are in the tree lie in the waves before w *)
+  Lemma wave_deps f d : In f w -> In d (fdeps f) -> In d (ids (concat (a ++ w :: b))) -> In d (ids (concat a)).
+  Proof.
+    intros Hf Hd Hk. pose proof W0 as H. apply wok_app in H. destruct H as [_ H]. simpl in H.
+    destruct H as [H _]. specialize (H f d Hf Hd Hk). rewrite app_nil_r in H.
+    apply in_ids_concat_rev. exact H.
+  Qed.
+
+  Lemma w_not_before D : In D w -> ~ In (fid D) (ids (concat a)).
+  Proof.
+    intros HD Hin. pose proof N0 as N. rewrite concat_app, ids_app in N. simpl in N. rewrite ids_app in N.
+    destruct (nodup_app _ _ N) as [_ [_ Dj]]. apply (Dj _ Hin). apply in_or_app. left. apply in_ids. exact HD.
+  Qed.
+
+  (* members of a group do not depend on one another *)
+  Lemma independent mem D : In mem Mem -> In D Mem -> ~ In (fid D) (fdeps mem).
+  Proof.
+    intros Hm HD Hin. destruct (mem_facts mem Hm) as [Hw _]. destruct (mem_facts D HD) as [HDw _].
+    apply (w_not_before D HDw). apply (wave_deps mem (fid D) Hw Hin).
+    apply in_ids. apply in_flat. left. exact HD.
+  Qed.
+
+  Lemma rd_fdeps f x : In x (fdeps f) -> In (if memb x mids then mu else x) (fdeps (rf f)).
+  Proof. intros H. unfold rf, redirect. simpl. apply in_map_iff. exists x. split; [reflexivity | exact H]. Qed.
+
+  Lemma in_S' X : In X (concat S') <-> X = rf Mu \/ exists N, In N Rest /\ X = rf N.
+  Proof.
+    split; intros H.
+    - pose proof (Permutation_in _ step_P2 H) as H'. simpl in H'. destruct H' as [E | H'].
+      + left. symmetry. exact E.
+      + right. apply in_map_iff in H'. destruct H' as [N [E HN]]. exists N. split; [exact HN | symmetry; exact E].
+    - eapply Permutation_in; [apply Permutation_sym; apply step_P2|]. simpl.
+      destruct H as [E | [N [HN E]]]; [left; symmetry; exact E | right; subst; apply in_map; exact HN].
+  Qed.
+
+  Lemma ids_S' : forall x, In x (ids (concat S')) <-> x = mu \/ In x (ids Rest).
+  Proof.
+    intros x. assert (P : Permutation (ids (concat S')) (mu :: ids Rest)).
+    { unfold ids. eapply Permutation_trans; [apply Permutation_map; apply step_P2|]. simpl.
+      rewrite map_map. apply Permutation_refl. }
+    split; intros H.
+    - pose proof (Permutation_in _ P H) as H'. simpl in H'. destruct H' as [E | H']; [left; symmetry; exact E | right; exact H'].
+    - eapply Permutation_in; [apply Permutation_sym; exact P|]. simpl. destruct H; [left; symmetry; assumption | right; assumption].
+  Qed.
+
+  Lemma ids_S'_sub x : In x (ids (concat S')) -> In x (ids (concat (a ++ w :: b))).
+  Proof.
+    intros H. apply ids_S' in H. destruct H as [E | H].
+    - subst. pose proof mu_in_mids as Hm. apply mids_mem in Hm. apply ids_in in Hm.
+      destruct Hm as [f [Hf E]]. rewrite <- E. apply in_ids. apply in_flat. left. exact Hf.
+    - apply ids_in in H. destruct H as [f [Hf E]]. rewrite <- E. apply in_ids. apply in_flat. right. exact Hf.
+  Qed.
+
+  Lemma step_nodup : NoDup (ids (concat S')).
+  Proof.
+    eapply Permutation_NoDup.
+    - unfold ids. apply Permutation_map. apply Permutation_sym. apply step_P2.
+    - simpl. fold (ids (map rf Rest)). unfold rf. rewrite ids_map_redirect.
+      destruct (nodup_app _ _ nodup_split) as [_ [Nr Dj]]. constructor; [|exact Nr].
+      intros Hin. apply (Dj mu); [apply mids_mem; exact mu_in_mids | exact Hin].
+  Qed.
+
+  Lemma step_cover : cover l (concat S').
+  Proof.
+    destruct C0 as [CA CB]. split.
+    - eapply Permutation_trans; [apply Permutation_flat_map; apply step_P2|].
+      assert (Eq : flat_map planned_ids (map rf (Mu :: Rest)) = mids ++ flat_map planned_ids Rest).
+      { change (map rf (Mu :: Rest)) with (rf Mu :: map rf Rest). simpl flat_map.
+        rewrite planned_Mu. unfold rf. rewrite planned_map_redirect. reflexivity. }
+      rewrite Eq. clear Eq.
+      eapply Permutation_trans; [|exact CA].
+      eapply Permutation_trans; [|apply Permutation_flat_map; apply Permutation_sym; apply step_P1].
+      rewrite flat_map_app. apply Permutation_app_tail.
+      assert (E : flat_map planned_ids Mem = ids Mem).
+      { assert (G : forall xs, (forall x, In x xs -> planned_ids x = [fid x]) -> flat_map planned_ids xs = ids xs).
+        { induction xs as [|x xs IH]; simpl; intros H; [reflexivity|].
+          rewrite (H x (or_introl eq_refl)). simpl. f_equal. apply IH. intros y Hy. apply H. right. exact Hy. }
+        apply G. intros x Hx. apply (mem_facts x Hx). }
+      rewrite E. unfold mids, ids. apply Permutation_map. apply Permutation_sym. exact Hperm.
+    - intros M' m g d HM' Hm Hg Eg Hd Hk. apply in_S' in HM'. destruct HM' as [E | [M [HM E]]]; subst M'.
+      + (* the merged node *)
+        rewrite planned_Mu in Hm.
+        apply mids_mem in Hm. apply ids_in in Hm. destruct Hm as [mem [Hmem Emem]].
+        destruct (mem_facts mem Hmem) as [Hw Hpl].
+        destruct (CB mem m g d) as [D [D1 [D2 D3]]]; try assumption.
+        { apply in_flat. left. exact Hmem. }
+        { rewrite Hpl. left. exact Emem. }
+        apply in_flat in D1. destruct D1 as [D1 | D1].
+        { exfalso. apply (independent mem D Hmem D1 D3). }
+        exists (rf D). split; [apply in_S'; right; exists D; split; [exact D1 | reflexivity]|].
+        split; [exact D2|].
+        pose proof (rest_not_mid D D1) as Hnm.
+        assert (Hu : In (fid D) (fdeps Mu)).
+        { simpl. apply union_deps_in. exists mem. split; [|split; [exact D3 | exact Hnm]].
+          eapply Permutation_in; [exact Hperm | exact Hmem]. }
+        pose proof (rd_fdeps Mu (fid D) Hu) as R. apply memb_false in Hnm. rewrite Hnm in R. exact R.
+      + (* an untouched node, redirected *)
+        change (planned_ids (rf M)) with (planned_ids M) in Hm.
+        destruct (CB M m g d) as [D [D1 [D2 D3]]]; try assumption.
+        { apply in_flat. right. exact HM. }
+        apply in_flat in D1. destruct D1 as [D1 | D1].
+        * destruct (mem_facts D D1) as [_ Hpl]. rewrite Hpl in D2. destruct D2 as [D2 | []].
+          exists (rf Mu). split; [apply in_S'; left; reflexivity|]. split.
+          { rewrite planned_Mu. rewrite <- D2. apply mem_mid. exact D1. }
+          pose proof (rd_fdeps M (fid D) D3) as R.
+          pose proof (mem_mid D D1) as Hin. apply memb_In in Hin. rewrite Hin in R. exact R.
+        * exists (rf D). split; [apply in_S'; right; exists D; split; [exact D1 | reflexivity]|].
+          split; [exact D2|].
+          pose proof (rd_fdeps M (fid D) D3) as R.
+          pose proof (rest_not_mid D D1) as Hnm. apply memb_false in Hnm. rewrite Hnm in R. exact R.
+  Qed.
+
+  Lemma step_nodes N : In N (concat S') -> In (fid N) (planned_ids N) /\ (is_cand N = true -> fmerged N = []).
+  Proof.
+    intros H. apply in_S' in H. destruct H as [E | [M [HM E]]]; subst N.
+    - split; [|intros Hc; discriminate]. rewrite planned_Mu.
+      change (fid (rf Mu)) with mu. exact mu_in_mids.
+    - apply (E0 M). apply in_flat. right. exact HM.
+  Qed.
+  (* ---- the waves stay ordered ---- *)
+  Let rd := fun d => if memb d mids then mu else d.
+
+  Lemma ids_concat_map X : ids (concat (map (map rf) X)) = ids (concat X).
+  Proof. rewrite <- concat_map. unfold rf. apply ids_map_redirect. Qed.
+
+  Lemma mids_present x : In x mids -> In x (ids (concat (a ++ w :: b))).
+  Proof.
+    intros H. apply mids_mem in H. apply ids_in in H. destruct H as [f [Hf E]]. rewrite <- E.
+    apply in_ids. apply in_flat. left. exact Hf.
+  Qed.
+
+  Lemma wok_redirect X : forall prov prov',
+    (forall x, In x prov -> In (rd x) prov') ->
+    (forall f, In f (concat X) -> ~ In (fid f) mids) ->
+    wok (ids (concat (a ++ w :: b))) prov X ->
+    wok (ids (concat S')) prov' (map (map rf) X).
+  Proof.
+    induction X as [|w1 X IH]; simpl; intros prov prov' R Hn H; [exact I|].
+    destruct H as [H1 H2]. split.
+    - intros f' d' Hf' Hd' Hk'. apply in_map_iff in Hf'. destruct Hf' as [f [E Hf]]. subst f'.
+      simpl in Hd'. apply in_map_iff in Hd'. destruct Hd' as [d [E Hd]].
+      destruct (memb d mids) eqn:M.
+      + subst d'. apply memb_In in M.
+        pose proof (R d (H1 f d Hf Hd (mids_present d M))) as Q. unfold rd in Q.
+        apply memb_In in M. rewrite M in Q. exact Q.
+      + subst d'. pose proof (R d (H1 f d Hf Hd (ids_S'_sub d Hk'))) as Q. unfold rd in Q.
+        rewrite M in Q. exact Q.
+    - apply (IH (ids w1 ++ prov)).
+      + intros x Hx. apply in_app_or in Hx. apply in_or_app. destruct Hx as [Hx | Hx].
+        * left. unfold rf. rewrite ids_map_redirect.
+          assert (Hnm : ~ In x mids).
+          { apply ids_in in Hx. destruct Hx as [f [Hf E]]. rewrite <- E. apply Hn. apply in_or_app. left. exact Hf. }
+          unfold rd. apply memb_false in Hnm. rewrite Hnm. exact Hx.
+        * right. apply R. exact Hx.
+      + intros f Hf. apply Hn. apply in_or_app. right. exact Hf.
+      + exact H2.
+  Qed.
+
+  Lemma in_rest_a f : In f (concat a) -> In f Rest.
+  Proof. intros H. unfold Rest. apply in_or_app. left. exact H. Qed.
+  Lemma in_rest_b f : In f (concat b) -> In f Rest.
+  Proof. intros H. unfold Rest. apply in_or_app. right. apply in_or_app. right. exact H. Qed.
+  Lemma in_rest_non f : In f Non -> In f Rest.
+  Proof. intros H. unfold Rest. apply in_or_app. right. apply in_or_app. left. exact H. Qed.
+
+  Lemma w_split f : In f w -> In f Mem \/ In f Non.
+  Proof.
+    intros H. destruct (sel gids f) eqn:Sf.
+    - left. unfold Mem. apply filter_In. split; assumption.
+    - right. unfold Non. apply filter_In. split; [exact H | rewrite Sf; reflexivity].
+  Qed.
+
+  Lemma in_merged f : In f (merge_in_wave gids Mu w) <-> f = Mu \/ In f Non.
+  Proof.
+    pose proof (merge_in_wave_perm gids Mu w mem_exists) as P. split; intros H.
+    - pose proof (Permutation_in _ P H) as H'. simpl in H'. destruct H' as [E | H']; [left; symmetry; exact E | right; exact H'].
+    - eapply Permutation_in; [apply Permutation_sym; exact P|]. simpl.
+      destruct H as [E | H]; [left; symmetry; exact E | right; exact H].
+  Qed.
+
+  Lemma prov_a x : In x (ids (concat (rev (map (map rf) a))) ++ []) <-> In x (ids (concat a)).
+  Proof. rewrite app_nil_r, in_ids_concat_rev, ids_concat_map. reflexivity. Qed.
+
+  Lemma step_wok : wok (ids (concat S')) [] S'.
+  Proof.
+    pose proof W0 as H. apply wok_app in H. destruct H as [Ha Hwb]. simpl in Hwb. destruct Hwb as [_ Hb].
+    set (P' := ids (concat S')).
+    assert (ES : S' = map (map rf) a ++ map rf (merge_in_wave gids Mu w) :: map (map rf) b)
+      by (unfold S'; rewrite map_app; reflexivity).
+    rewrite ES. apply wok_app. split.
+    - apply (wok_redirect a [] []); [intros x [] | | exact Ha].
+      intros f Hf. apply rest_not_mid. apply in_rest_a. exact Hf.
+    - simpl. split.
+      + (* the wave of the merge *)
+        intros f' d' Hf' Hd' Hk'. apply prov_a.
+        apply in_map_iff in Hf'. destruct Hf' as [f [E Hf]]. subst f'.
+        simpl in Hd'. apply in_map_iff in Hd'. destruct Hd' as [d [E Hd]].
+        apply in_merged in Hf. destruct Hf as [Ef | Hf].
+        * subst f. simpl in Hd. apply union_deps_in in Hd. destruct Hd as [mem [Hmem [Hd Hnm]]].
+          apply memb_false in Hnm. rewrite Hnm in E. subst d'.
+          assert (Hm : In mem Mem) by (eapply Permutation_in; [apply Permutation_sym; exact Hperm | exact Hmem]).
+          destruct (mem_facts mem Hm) as [Hw _].
+          apply (wave_deps mem d Hw Hd). apply ids_S'_sub. exact Hk'.
+        * assert (Hw : In f w) by (unfold Non in Hf; apply filter_In in Hf; apply Hf).
+          destruct (memb d mids) eqn:M.
+          -- exfalso. apply memb_In in M. pose proof (wave_deps f d Hw Hd (mids_present d M)) as Q.
+             apply mids_mem in M. apply ids_in in M. destruct M as [D [HD ED]]. rewrite <- ED in Q.
+             destruct (mem_facts D HD) as [HDw _]. apply (w_not_before D HDw Q).
+          -- subst d'. apply (wave_deps f d Hw Hd). apply ids_S'_sub. exact Hk'.
+      + apply (wok_redirect b (ids w ++ ids (concat (rev a)) ++ [])); [| | exact Hb].
+        * intros x Hx. apply in_app_or in Hx. apply in_or_app. destruct Hx as [Hx | Hx].
+          -- left. unfold rf. rewrite ids_map_redirect.
+             apply ids_in in Hx. destruct Hx as [f [Hf E]]. destruct (w_split f Hf) as [Hm | Hn].
+             ++ pose proof (mem_mid f Hm) as Q. rewrite E in Q. apply memb_In in Q. unfold rd. rewrite Q.
+                change mu with (fid Mu). apply in_ids. apply in_merged. left. reflexivity.
+             ++ pose proof (rest_not_mid f (in_rest_non f Hn)) as Q. rewrite E in Q. apply memb_false in Q.
+                unfold rd. rewrite Q. rewrite <- E. apply in_ids. apply in_merged. right. exact Hn.
+          -- right. apply prov_a. rewrite app_nil_r in Hx. rewrite in_ids_concat_rev in Hx.
+             assert (Hnm : ~ In x mids).
+             { apply ids_in in Hx. destruct Hx as [f [Hf E]]. rewrite <- E.
+               apply rest_not_mid. apply in_rest_a. exact Hf. }
+             apply memb_false in Hnm. unfold rd. rewrite Hnm. exact Hx.
+        * intros f Hf. apply rest_not_mid. apply in_rest_b. exact Hf.
+  Qed.
+
+  Lemma step_inv : inv l S'.
+  Proof.
+    split; [exact step_nodup|]. split; [exact step_cover|]. split; [exact step_wok | exact step_nodes].
+  Qed.
+End Step.
+
+(* ---- the whole stage ---- *)
+Lemma merge_group_inv l k gids s : inv l s -> inv l (merge_group k gids s).
+Proof.
+  intros H. unfold merge_group.
+  destruct (Nat.lt_ge_cases k (length s)) as [Hk | Hk].
+  - destruct (nth_set_split s k Hk) as [a [w [b [E1 [E2 [E3 E4]]]]]]. rewrite E3.
+    pose proof (go_sort_perm cmp_fid (filter (sel gids) w)) as P.
+    destruct (go_sort cmp_fid (filter (sel gids) w)) as [|base [|m2 r]] eqn:G; try exact H.
+    destruct (forallb _ _); [|exact H].
+    rewrite E4. subst s.
+    apply (step_inv l a w b gids (base :: m2 :: r) base P); [left; reflexivity | exact H].
+  - rewrite (nth_overflow s [] Hk). simpl. exact H.
+Qed.
+
+Lemma process_wave_inv l k s : inv l s -> inv l (process_wave k s).
+Proof.
+  unfold process_wave. generalize (groups_of (nth k s [])). intros gs. revert s.
+  induction gs as [|g gs IH]; simpl; intros s H; [exact H|].
+  apply IH. apply merge_group_inv. exact H.
+Qed.
+
+Lemma cmf_from_inv l n : forall k s, inv l s -> inv l (cmf_from n k s).
+Proof.
+  induction n as [|n IH]; simpl; intros k s H; [exact H|].
+  apply IH. apply process_wave_inv. exact H.
+Qed.
+
+Lemma ordered_ext known known' provided nodes :
+  (forall d, In d known' -> In d known) -> ordered known provided nodes -> ordered known' provided nodes.
+Proof. intros Hk O pre f post E d Hd K. apply (O pre f post E d Hd). apply Hk. exact K. Qed.
+
+(* the legacy waves of an acyclic plan satisfy the invariant *)
+Lemma waves_inv l :
+  acyclic l -> unique_ids l -> plain l ->
+  exists ws, organize_in_waves l = Some (Sequence ws) /\ inv l (map tree_fetches ws).
+Proof.
+  intros Hac Hu Hp. destruct (order_sequence_ok l Hac Hu) as [s [Es [P T]]].
+  unfold organize_in_waves. rewrite Es. unfold create_parallel_nodes.
+  destruct (waves (length s) [] s) as [ws|] eqn:W.
+  2:{ exfalso. revert W. apply waves_some. lia. }
+  exists ws. split; [reflexivity|].
+  assert (Pc : Permutation (concat (map tree_fetches ws)) l).
+  { rewrite <- flat_map_concat_map.
+    eapply Permutation_trans; [apply (waves_perm _ _ _ _ W) | apply Permutation_sym; exact P]. }
+  assert (Pi : forall d, In d (ids (concat (map tree_fetches ws))) <-> In d (ids l)).
+  { intros d. apply perm_ids. exact Pc. }
+  split; [|split; [|split]].
+  - eapply Permutation_NoDup; [|exact Hu]. unfold ids. apply Permutation_map. apply Permutation_sym. exact Pc.
+  - eapply cover_perm; [apply Permutation_sym; exact Pc|]. apply cover_refl; assumption.
+  - apply (waves_wok _ _ _ _ W); [|apply incl_refl].
+    eapply ordered_ext; [|apply topological_ordered; exact T]. intros d Hd. apply Pi. exact Hd.
+  - intros N HN. assert (HN' : In N l) by (eapply Permutation_in; [exact Pc | exact HN]).
+    pose proof (Hp N HN') as Hm. split; [|intros _; exact Hm].
+    rewrite (planned_ids_plain N Hm). left. reflexivity.
+Qed.
+
+Lemma inv_tree l s :
+  inv l s ->
+  let t := tree_of_waves s in
+  tree_fetches t = concat s /\ plan_respects t (concat s) /\ NoDup (ids (concat s)) /\
+  cover l (concat s) /\ acyclic (concat s).
+Proof.
+  intros [N [C [W E]]] t. pose proof (tree_of_waves_fetches s) as F. split; [exact F|]. split; [|split; [exact N|split; [exact C|]]].
+  - apply sc_plan_respects; [unfold t; rewrite F; apply Permutation_refl|].
+    change (sc_seq (sc (ids (concat s))) [] (map wave_tree s) = true). apply wok_sc. exact W.
+  - apply wok_acyclic; assumption.
+Qed.
+
+(* for the tree produced by organize in every configuration: every execution merges d before it
+   prepares M for every dependency d that the PLANNER declared for any member of M *)
+Lemma multi_respects_member_deps_proof sched multi trigger l t :
+  acyclic l -> unique_ids l -> plain l ->
+  organize sched multi trigger l = Done t ->
+  member_respects t l /\ members_once t l.
+Proof.
+  intros Hac Hu Hp. destruct multi.
+  2:{ intros H. destruct (organize_respects_deps_proof sched trigger l t Hac Hu H) as [P [R _]].
+      apply (cover_transfer l l t); try assumption. apply cover_refl; assumption. }
+  destruct (waves_inv l Hac Hu Hp) as [ws [Ew I0]].
+  set (s := cmf_from (length (map tree_fetches ws)) 0 (map tree_fetches ws)).
+  assert (Is : inv l s) by (apply cmf_from_inv; exact I0).
+  destruct (inv_tree l s Is) as [F [R [N [C A]]]].
+  assert (Ecm : create_multi_fetch (Sequence ws) = tree_of_waves s) by reflexivity.
+  unfold organize. rewrite Ew. destruct sched.
+  - rewrite Ecm, F.
+    destruct (process_fetch_tree trigger (concat s)) as [e|t'] eqn:E.
+    + destruct e; try discriminate; unfold of_option;
+        destruct (organize_in_waves (concat s)) as [t'|] eqn:W2; try discriminate;
+        intros H; inversion H; subst t';
+        destruct (organize_in_waves_ok _ _ A N W2) as [P [R' _]];
+        apply (cover_transfer l (concat s) t); assumption.
+    + intros H. inversion H; subst t'. destruct (process_fetch_tree_ok _ _ _ E) as [P [R' _]].
+      apply (cover_transfer l (concat s) t); assumption.
+  - intros H. inversion H; subst t. rewrite Ecm.
+    apply (cover_transfer l (concat s)); try assumption. rewrite F. apply Permutation_refl.
+Qed.
